@@ -157,7 +157,10 @@ def run_lb(cfg, values=None, ctx=None):
         for r in range(n):
             Kv = sum((Kd[r, j] * v[j] for j in range(n)), Sym.lift(0))
             Gv = sum((Gd[r, j] * v[j] for j in range(n)), Sym.lift(0))
-            obs.append(('residual[%d,%d]' % (i, r), mu * Kv, Gv))
+            if r in active or not cfg.get('G_beyond_K'):
+                # (a geometric matrix with entries on amplitudes WITHOUT stiffness: the pair is one of the active block, and the
+                # residual is claimed on the active rows only -- on the other rows K v = 0 and lambda*KG v cannot vanish in general)
+                obs.append(('residual[%d,%d]' % (i, r), mu * Kv, Gv))
             if r not in active:
                 obs.append(('zero-on-null-amplitude[%d,%d]' % (i, r), v[r], 0))
     assumptions = {i: W.contracts_by.get((len(W.calls) - 1, colmap.get(i, i)), []) for i in range(npairs)} if values is None else {}
@@ -430,6 +433,11 @@ def configs(tier, seed):
                         # in-plane-like amplitudes: rows/columns present in K, null in KG (the eigenproblem keeps them)
                         out.append({'target': target, 'n': n, 'active': active, 'active_G': active[:-2], 'num': 2, 'path': path,
                                     'group': '%s:%s' % (target, path), 'm': n, 'variant': '%s/num=2/n=%d/u=%d/KG-null-on-2-more' % (path, n, u)})
+                    if 3 <= u < n and path != 'sparse':
+                        # a geometric matrix that also has entries on an amplitude WITHOUT stiffness (admissible: any symmetric KG)
+                        null = [q for q in range(n) if q not in active]
+                        out.append({'target': target, 'n': n, 'active': active, 'active_G': sorted(active + null[:1]), 'G_beyond_K': True, 'num': 2, 'path': path,
+                                    'group': '%s:%s' % (target, path), 'm': n, 'variant': '%s/num=2/n=%d/u=%d/KG-entries-on-a-stiffnessless-amplitude' % (path, n, u)})
     out[0]['canary'] = True
     out[-1]['canary'] = True
     for model in ('plate', 'cpanel'):
